@@ -8,6 +8,7 @@ import (
 	"encoding/binary"
 	"fmt"
 	"net"
+	"os"
 	"strings"
 	"sync"
 	"sync/atomic"
@@ -248,7 +249,7 @@ type sentPkt struct {
 type flow struct {
 	name     string
 	mu       sync.Mutex
-	sent     map[string]*sentPkt // key: pt/seq
+	sent     map[string]*sentPkt // key: the 32-byte marker the payload starts with
 	markers  [][]byte
 	got      map[string]int
 	bad      []string
@@ -270,7 +271,7 @@ func (f *flow) makeRTP(pt uint8, seq uint16) *rtp.Packet {
 		Payload: payload,
 	}
 	f.mu.Lock()
-	f.sent[fmt.Sprintf("%d/%d", pt, seq)] = &sentPkt{pt, seq, p.Timestamp, p.Marker, payload}
+	f.sent[string(marker)] = &sentPkt{pt, seq, p.Timestamp, p.Marker, payload}
 	f.markers = append(f.markers, marker)
 	f.mu.Unlock()
 	return p
@@ -286,16 +287,19 @@ func (f *flow) makeRTCP() rtcp.Packet {
 }
 
 func (f *flow) onRTP(pkt *rtp.Packet) {
-	k := fmt.Sprintf("%d/%d", pkt.PayloadType, pkt.SequenceNumber)
+	k := ""
+	if len(pkt.Payload) >= 32 {
+		k = string(pkt.Payload[:32])
+	}
 	f.mu.Lock()
 	defer f.mu.Unlock()
 	s, ok := f.sent[k]
 	switch {
 	case !ok:
-		f.bad = append(f.bad, fmt.Sprintf("delivered packet pt=%d seq=%d was never sent", pkt.PayloadType, pkt.SequenceNumber))
-	case !bytes.Equal(s.payload, pkt.Payload) || s.ts != pkt.Timestamp || s.marker != pkt.Marker:
-		f.bad = append(f.bad, fmt.Sprintf("delivered packet pt=%d seq=%d differs from the sent one (payload equal: %v, ts %d/%d, marker %v/%v)",
-			pkt.PayloadType, pkt.SequenceNumber, bytes.Equal(s.payload, pkt.Payload), s.ts, pkt.Timestamp, s.marker, pkt.Marker))
+		f.bad = append(f.bad, fmt.Sprintf("delivered packet pt=%d seq=%d (%d payload bytes) was never sent", pkt.PayloadType, pkt.SequenceNumber, len(pkt.Payload)))
+	case !bytes.Equal(s.payload, pkt.Payload) || s.ts != pkt.Timestamp || s.marker != pkt.Marker || s.seq != pkt.SequenceNumber || s.pt != pkt.PayloadType:
+		f.bad = append(f.bad, fmt.Sprintf("delivered packet pt=%d seq=%d differs from the sent one (pt %d seq %d, payload equal: %v, ts %d/%d, marker %v/%v)",
+			pkt.PayloadType, pkt.SequenceNumber, s.pt, s.seq, bytes.Equal(s.payload, pkt.Payload), s.ts, pkt.Timestamp, s.marker, pkt.Marker))
 	default:
 		f.got[k]++
 		if f.got[k] > 1 {
@@ -324,10 +328,14 @@ func (f *flow) onRTCP(pkt rtcp.Packet) {
 // alteration of every k-th outbound unit: one bit flipped or one byte replaced
 func alterEvery(k int, rtpOnly bool) func([]byte) [][]byte {
 	n := 0
+	seenPT := map[byte]bool{}
 	return func(b []byte) [][]byte {
 		if len(b) < 12 {
 			return nil
 		}
+		pt := b[1] & 0x7f
+		first := !seenPT[pt]
+		seenPT[pt] = true
 		n++
 		if n%k != 0 {
 			return nil
@@ -338,6 +346,13 @@ func alterEvery(k int, rtpOnly bool) func([]byte) [][]byte {
 			pos = len(mut) - 1 - erng.Intn(14) // tag / MKI region
 		} else if erng.Intn(3) == 0 {
 			pos = erng.Intn(12) // clear header
+		}
+		// The receiver latches the remote SSRC from the first packet of a format before
+		// authenticating it (finding ssrc-latch-unauthenticated, reproduced deterministically by
+		// stageLatch). Random alterations therefore leave the SSRC field of the first packet of a
+		// payload type alone, so that these runs measure everything else.
+		if first && pos >= 8 && pos < 12 {
+			pos = 12 + erng.Intn(len(mut)-12)
 		}
 		if erng.Bool() {
 			mut[pos] ^= 1 << erng.Intn(8)
@@ -440,7 +455,10 @@ func runE2E(cfg e2eCfg) *e2eRes {
 		close(recording)
 		return &base.Response{StatusCode: base.StatusOK}, nil
 	}
-	h.onDecodeError = func(*gortsplib.ServerHandlerOnDecodeErrorCtx) {
+	h.onDecodeError = func(c *gortsplib.ServerHandlerOnDecodeErrorCtx) {
+		if os.Getenv("SECURE_DEBUG") != "" {
+			fmt.Fprintln(os.Stderr, cfg.name, "server decode error:", c.Error)
+		}
 		if cfg.record {
 			res.decodeErrRcv.Add(1)
 		} else {
@@ -595,7 +613,7 @@ func runE2E(cfg e2eCfg) *e2eRes {
 			for i := 0; i < 40; i++ {
 				p := res.fwd.makeRTP(96, base+uint16(i))
 				late.mu.Lock()
-				late.sent[fmt.Sprintf("%d/%d", p.PayloadType, p.SequenceNumber)] = &sentPkt{p.PayloadType, p.SequenceNumber, p.Timestamp, p.Marker, p.Payload}
+				late.sent[string(p.Payload[:32])] = &sentPkt{p.PayloadType, p.SequenceNumber, p.Timestamp, p.Marker, p.Payload}
 				late.mu.Unlock()
 				if err := stream.WritePacketRTP(medi, p); err != nil {
 					note("late write: %v", err)
@@ -1078,6 +1096,8 @@ func stageE2E() {
 	stageSetupStatus()
 	stageTunnel()
 	stageStaleE2E()
+	stageLatch(true)
+	stageLatch(false)
 
 	n := ctx.Budget(400, 66000)
 	start := uint16(65536 - 60) // quick: the wrap happens after 60 packets
@@ -1101,6 +1121,15 @@ func stageE2E() {
 		)
 	}
 	// independent sessions on their own servers and ports: run them concurrently
+	if only := os.Getenv("SECURE_E2E"); only != "" {
+		var sel []e2eCfg
+		for _, c := range cfgs {
+			if strings.Contains(c.name, only) {
+				sel = append(sel, c)
+			}
+		}
+		cfgs = sel
+	}
 	results := make([]*e2eRes, len(cfgs))
 	var wg sync.WaitGroup
 	sem := make(chan struct{}, 3)
